@@ -3,14 +3,19 @@
    stream that respects the contract of the random primitives (choices_ok). *)
 From Coq Require Import List ZArith Bool Lia Permutation.
 From DD Require Import Model.Circuit Model.Query Model.Enumerate
-     Proofs.PassLemmas Proofs.Enum Proofs.Semantics Proofs.CountsA Proofs.C07Defs.
+     Proofs.PassLemmas Proofs.Enum Proofs.Semantics Proofs.CountsA Proofs.Live Proofs.LiveCounts
+     Proofs.C07Defs.
 Import ListNotations.
 Open Scope Z_scope.
 
 (* what preprocess + execute_query leave in the temps (proved with execute_query; a hypothesis here):
-   the count under the assumptions, except at true nodes (hidden / implementation dependent) *)
+   the count under the assumptions on every REACHABLE node (the root, the children of reachable
+   nodes with a non-zero count: Proofs/Live.v), except at true nodes (hidden / implementation
+   dependent); below a node with count zero the temps may be stale (Proofs/ExecTemps.v), the
+   sampler never goes there *)
 Definition temps_ok (A : cfg) (C : circuit) (ts : list Z) : Prop :=
-  forall i, (i < length C)%nat -> nth i C FalseN <> TrueN -> nth i ts 0 = nth i (countsA A C) 0.
+  forall i, (i < length C)%nat -> nth i C FalseN <> TrueN -> Reach C i ->
+            nth i ts 0 = nth i (countsA A C) 0.
 
 (* s is, up to the order of its literals, a configuration of node i compatible with A *)
 Definition Vp (A : cfg) (C : circuit) (i : nat) (s : cfg) : Prop :=
@@ -385,17 +390,21 @@ Qed.
 (* ---------- the induction over the node vector ---------- *)
 
 Lemma sample_node_c_valid : forall i, (i < length C)%nat ->
-  forall f, (i < f)%nat -> nth i C FalseN <> TrueN -> nth i (countsA A C) 0 <> 0 -> node_valid f i.
+  forall f, (i < f)%nat -> nth i C FalseN <> TrueN -> Reach C i ->
+  nth i (countsA A C) 0 <> 0 -> node_valid f i.
 Proof.
-  apply (idx_induction C (fun i => forall f, (i < f)%nat -> nth i C FalseN <> TrueN ->
+  apply (idx_induction C (fun i => forall f, (i < f)%nat -> nth i C FalseN <> TrueN -> Reach C i ->
                                    nth i (countsA A C) 0 <> 0 -> node_valid f i) Hok).
-  intros i Hi IH f Hif Hnt Hcnt amount chs l rest ok ct Hamt Hs Hokf Hctf.
+  intros i Hi IH f Hif Hnt HR Hcnt amount chs l rest ok ct Hamt Hs Hokf Hctf.
+  assert (HRc : forall c, In c (children (nth i C FalseN)) -> Reach C c).
+  { intros c Hc. apply (reach_child C i c HR Hi); [|exact Hc].
+    exact (count_of_countsA_nonzero C Hok A i Hi Hcnt). }
   destruct f as [|f]; [lia|]. rewrite sample_node_c_S in Hs.
   destruct (amount =? 0) eqn:Ea.
   { apply Z.eqb_eq in Ea. injection Hs as <- _ _ _. subst amount. split; [reflexivity|constructor]. }
   apply Z.eqb_neq in Ea.
   pose proof (idx_ok_nth C i FalseN Hok Hi) as Hch.
-  destruct (nth i C FalseN) as [l0|cs|cs| |] eqn:E; cbn [children] in Hch, IH.
+  destruct (nth i C FalseN) as [l0|cs|cs| |] eqn:E; cbn [children] in Hch, IH, HRc.
   - (* Lit *)
     injection Hs as <- _ _ _. split; [apply repeat_n_length|].
     apply repeat_n_Forall. now apply Vp_lit.
@@ -405,7 +414,7 @@ Proof.
       (chs1 := chs) (ok := true) (ct := true) (acc' := l) (chs' := rest) (ok' := ok) (ct' := ct)
       as [Hlen HV]; try assumption.
     + intros c Hc. specialize (Hch c Hc). split; [lia|]. split; [lia|]. intros Hct.
-      apply IH; [exact Hc|lia|exact Hct|].
+      apply IH; [exact Hc|lia|exact Hct|exact (HRc c Hc)|].
       apply (zprod_nonzero _ Hcnt). apply in_map_iff. now exists c.
     + apply repeat_n_length.
     + apply repeat_n_Forall. apply AndV_nil.
@@ -425,7 +434,8 @@ Proof.
       (l' := l1) (chs' := chs2) (ok' := ok1) (k' := k1) (ct' := ct1)
       as [l2 [Hl2 [HV [Hle Heq]]]]; try assumption; try reflexivity.
     + intros c Hc. specialize (Hch c Hc). split; [exact Hc|]. split; [lia|]. split; [lia|].
-      intros Hct Ht. apply IH; [exact Hc|lia|exact Hct|]. rewrite <- (Hts c ltac:(lia) Hct). exact Ht.
+      intros Hct Ht. apply IH; [exact Hc|lia|exact Hct|exact (HRc c Hc)|].
+      rewrite <- (Hts c ltac:(lia) Hct (HRc c Hc)). exact Ht.
     + cbn [app] in Hl2. subst l1.
       assert (Hpad : length (l2 ++ repeat_n [] (Z.to_nat amount - length l2)) = Z.to_nat amount).
       { rewrite app_length, repeat_n_length. lia. }
@@ -445,22 +455,22 @@ Qed.
    exactly `amount` samples, each one (up to the order of its literals) a configuration of node i
    that is compatible with the assumptions. *)
 Theorem sample_node_valid (fuel : nat) (amount : Z) (i : nat) (chs : list choice) :
-  (i < length C)%nat -> (i < fuel)%nat -> 0 <= amount ->
+  (i < length C)%nat -> (i < fuel)%nat -> 0 <= amount -> Reach C i ->
   amount = 0 \/ (nth i C FalseN <> TrueN /\ nth i ts 0 <> 0) ->
   choices_ok d ts fuel amount i chs ->
   exists l rest, sample_node d ts fuel amount i chs = (l, rest, true) /\
                  length l = Z.to_nat amount /\ Forall (Vp A C i) l.
 Proof.
-  intros Hi Hf Hamt Hlive Hch. unfold choices_ok, choices_okb in Hch.
+  intros Hi Hf Hamt HR Hlive Hch. unfold choices_ok, choices_okb in Hch.
   destruct (sample_node_c d ts fuel amount i chs) as [[[l rest] ok] ct] eqn:Es.
   apply andb_true_iff in Hch. destruct Hch as [-> ->].
   exists l, rest. split; [exact (sample_node_c_eq _ _ _ _ _ _ _ _ _ _ Es)|].
   destruct Hlive as [->|[Hnt Ht]].
   - destruct fuel as [|f]; [lia|]. rewrite sample_node_c_S in Es. cbn [Z.eqb] in Es.
     injection Es as <- _. split; [reflexivity|constructor].
-  - apply (sample_node_c_valid i Hi fuel Hf Hnt) with (chs := chs) (rest := rest) (ok := true) (ct := true);
+  - apply (sample_node_c_valid i Hi fuel Hf Hnt HR) with (chs := chs) (rest := rest) (ok := true) (ct := true);
       try assumption; try reflexivity.
-    rewrite <- (Hts i Hi Hnt). exact Ht.
+    rewrite <- (Hts i Hi Hnt HR). exact Ht.
 Qed.
 
 End Valid.
